@@ -685,107 +685,5 @@ theorem next_negErr {cfg : Cfg} (st : State) (i : Nat) (g : Bytes) (hu : cfg.uni
   · rw [k4, ← hs.idx]; exact authAt_mech cfg.unix i
   · rw [k1, ← hs.idx]; exact hs
 
-/-- REJECTED (EXTERNAL) reaches the client: `AUTH DBUS_COOKIE_SHA1 <hex user>`. -/
-theorem next_rej0 {cfg : Cfg} (hyp : Hyp cfg) (st : State) (h0 : credsOk cfg = false)
-    (hc : CBase st.c (authAt cfg.unix 0)) (hb : SBase cfg st.s) (hs : st.s.srv = srv1 cfg)
-    (ha : accepts st.s.log = []) (q1 : st.s2c = AuthServer.rejectLine real ++ [13, 10]) (q2 : st.c2s = []) :
-    Next cfg 11 (lstepC cfg st) := by
-  left
-  have hh := cl_rejected (envOf cfg st.s.srv.world) cfg.unix 0 (by decide)
-  rw [authLine_cookie] at hh
-  obtain ⟨k1, k2, k3, k4⟩ := cli_step cfg st _ _ _ _ hc q1 q2 clean_const.2.2.2.2.2.1.1
-    (by have := clean_const.2.2.2.2.2.1.2; rw [maxAuth_eq]; omega) hh (authAt_flags cfg.unix 1).1
-    (cookieAuthLine_ne_begin _)
-  exact ⟨10, by decide, Phase.auth1 _ h0 k2 (k1 ▸ hb) (by rw [k1]; exact hs) (by rw [k1]; exact ha) k4 k3⟩
-
-/-- `AUTH DBUS_COOKIE_SHA1` reaches the bus: REJECTED, or the challenge. -/
-theorem next_auth1 {cfg : Cfg} (hyp : Hyp cfg) (st : State) (h0 : credsOk cfg = false)
-    (hc : CBase st.c (authAt cfg.unix 1)) (hb : SBase cfg st.s) (hs : st.s.srv = srv1 cfg)
-    (ha : accepts st.s.log = []) (q1 : st.c2s = cookieAuthLine cfg.user ++ [13, 10]) (q2 : st.s2c = []) :
-    Next cfg 10 (lstepS st) := by
-  left
-  have ho : handle real st.s.srv (cookieAuthLine cfg.user) = o1 cfg := by rw [hs]; rfl
-  have hcl := clean_cookieAuth hyp
-  rcases o1_cases cfg with ⟨hch, w', mm, h1, hm⟩ | ⟨hch, m, w1, c1, h1⟩
-  · obtain ⟨k1, k2, k3, k4, k5, k6, k7⟩ := srv_step cfg st _ _ hb q1 q2 hcl.1 (by rw [maxAuthLength_eq]; exact hcl.2)
-      ho (by rw [h1]) (by rw [h1]; rfl) (by rw [h1]; rfl)
-    have hku : keyringUsable cfg = false := by unfold keyringUsable; rw [hch]; rfl
-    refine ⟨7, by decide, Phase.rej1 _ h0 hku (k1 ▸ hc) k2 ?_ ?_ (by rw [k7, h1]; rfl) k6⟩
-    · rw [k3, h1]; exact ⟨rfl, rfl⟩
-    · rw [k4, accepts_snoc, ha, h1]; exact accepts_tail_nil hm
-  · obtain ⟨k1, k2, k3, k4, k5, k6, k7⟩ := srv_step cfg st _ _ hb q1 q2 hcl.1 (by rw [maxAuthLength_eq]; exact hcl.2)
-      ho (by rw [h1.1]) (by rw [h1.1]; rfl) (by rw [h1.1]; rfl)
-    refine ⟨9, by decide, Phase.ckChal _ h0 m w1 c1 h1 (k1 ▸ hc) k2 k3 ?_ ?_ k6⟩
-    · rw [k4, accepts_snoc, ha, h1.1]; rfl
-    · rw [k7, chalLine_eq h1, h1.1]; rfl
-
-/-- The challenge reaches the client: the response, or ERROR. -/
-theorem next_ckChal {cfg : Cfg} (hyp : Hyp cfg) (st : State) (h0 : credsOk cfg = false) (m : Bytes) (w1 : RealWorld)
-    (c1 : AuthServer.CookieSt) (ho : O1Challenge cfg m w1 c1) (hc : CBase st.c (authAt cfg.unix 1))
-    (hb : SBase cfg st.s) (hs : st.s.srv = (o1 cfg).srv) (ha : accepts st.s.log = [])
-    (q1 : st.s2c = chalLine cfg ++ [13, 10]) (q2 : st.c2s = []) : Next cfg 9 (lstepC cfg st) := by
-  left
-  have hw : st.s.srv.world = w1 := by rw [hs]; exact o1_world ho
-  have hh := (reply_spec ho).1
-  rw [← hw] at hh
-  have hcl := clean_chal hyp ho
-  have hcr := clean_reply hyp ho
-  obtain ⟨k1, k2, k3, k4⟩ := cli_step cfg st _ _ _ _ hc q1 q2 hcl.1 (by rw [maxAuth_eq]; exact hcl.2) hh
-    (authAt_flags cfg.unix 1).1 hcr.2.2
-  exact ⟨8, by decide, Phase.ckResp _ h0 m w1 c1 ho k2 (k1 ▸ hb) (by rw [k1]; exact hs) (by rw [k1]; exact ha) k4 k3⟩
-
-/-- The client's answer reaches the bus: OK, or REJECTED. -/
-theorem next_ckResp {cfg : Cfg} (hyp : Hyp cfg) (st : State) (h0 : credsOk cfg = false) (m : Bytes) (w1 : RealWorld)
-    (c1 : AuthServer.CookieSt) (ho : O1Challenge cfg m w1 c1) (hc : CBase st.c (authAt cfg.unix 1))
-    (hb : SBase cfg st.s) (hs : st.s.srv = (o1 cfg).srv) (ha : accepts st.s.log = [])
-    (q1 : st.c2s = reply cfg ++ [13, 10]) (q2 : st.s2c = []) : Next cfg 8 (lstepS st) := by
-  left
-  have hh : handle real st.s.srv (reply cfg) = o2 cfg := by rw [hs]; rfl
-  have hcr := clean_reply hyp ho
-  have hua : (o1 cfg).srv.authenticated = false := by rw [ho.1]; rfl
-  have hgu : (o1 cfg).srv.serverGuid = cfg.guid := by rw [ho.1]; rfl
-  rcases o2_cases hyp ho with ⟨hku, w2, c2, u, h2, hu⟩ | ⟨hku, w', mm, h2, hm⟩
-  · obtain ⟨k1, k2, k3, k4, k5, k6, k7⟩ := srv_step cfg st _ _ hb q1 q2 hcr.1 (by rw [maxAuthLength_eq]; exact hcr.2.1)
-      hh (by rw [h2]) (by rw [h2]; exact hua) (by rw [h2]; exact hgu)
-    refine ⟨5, by decide, Phase.okSent _ 1 (k1 ▸ hc)
-      ⟨k2, by rw [k3, h2], ?_, ?_, ?_, (expectedMech_1 h0 hku).symm⟩ (by rw [k7, h2]; rfl) k6⟩
-    · exact ⟨lit "DBUS_COOKIE_SHA1", .cookie c2, u, by rw [k3, h2], by rw [k3, h2]; exact hu⟩
-    · rw [k4, accepts_snoc, ha, h2, lit_consts.2.2.2.2.1]; rfl
-    · rw [k5, h2]; simp
-  · obtain ⟨k1, k2, k3, k4, k5, k6, k7⟩ := srv_step cfg st _ _ hb q1 q2 hcr.1 (by rw [maxAuthLength_eq]; exact hcr.2.1)
-      hh (by rw [h2]) (by rw [h2]; exact hua) (by rw [h2]; exact hgu)
-    refine ⟨7, by decide, Phase.rej1 _ h0 hku (k1 ▸ hc) k2 ?_ ?_ (by rw [k7, h2]; rfl) k6⟩
-    · rw [k3, h2]; exact ⟨rfl, rfl⟩
-    · rw [k4, accepts_snoc, ha, h2]; exact accepts_tail_nil hm
-
-/-- REJECTED (DBUS_COOKIE_SHA1) reaches the client: `AUTH ANONYMOUS 747864627573`. -/
-theorem next_rej1 {cfg : Cfg} (st : State) (h0 : credsOk cfg = false) (h1 : keyringUsable cfg = false)
-    (hc : CBase st.c (authAt cfg.unix 1)) (hb : SBase cfg st.s)
-    (hs : st.s.srv.state = .waitingForAuth ∧ st.s.srv.rejects = 2) (ha : accepts st.s.log = [])
-    (q1 : st.s2c = AuthServer.rejectLine real ++ [13, 10]) (q2 : st.c2s = []) : Next cfg 7 (lstepC cfg st) := by
-  left
-  have hh := cl_rejected (envOf cfg st.s.srv.world) cfg.unix 1 (by decide)
-  rw [authLine_anon] at hh
-  obtain ⟨k1, k2, k3, k4⟩ := cli_step cfg st _ _ _ _ hc q1 q2 clean_const.2.2.2.2.2.1.1
-    (by have := clean_const.2.2.2.2.2.1.2; rw [maxAuth_eq]; omega) hh (authAt_flags cfg.unix 2).1 (by decide)
-  exact ⟨6, by decide, Phase.auth2 _ h0 h1 k2 (k1 ▸ hb) (by rw [k1]; exact hs) (by rw [k1]; exact ha) k4 k3⟩
-
-/-- `AUTH ANONYMOUS` reaches the bus: OK. -/
-theorem next_auth2 {cfg : Cfg} (st : State) (h0 : credsOk cfg = false) (h1 : keyringUsable cfg = false)
-    (hc : CBase st.c (authAt cfg.unix 2)) (hb : SBase cfg st.s)
-    (hs : st.s.srv.state = .waitingForAuth ∧ st.s.srv.rejects = 2) (ha : accepts st.s.log = [])
-    (q1 : st.c2s = AuthServer.authLineOf (lit "ANONYMOUS") (some (lit "txdbus")) ++ [13, 10]) (q2 : st.s2c = []) :
-    Next cfg 6 (lstepS st) := by
-  left
-  have ho := sv_auth_anon st.s.srv hs.1
-  have hg : st.s.srv.serverGuid = cfg.guid := hb.guid
-  obtain ⟨k1, k2, k3, k4, k5, k6, k7⟩ := srv_step cfg st _ _ hb q1 q2 clean_const.2.2.2.2.2.2.1.1
-    (by have := clean_const.2.2.2.2.2.2.1.2; rw [maxAuthLength_eq]; omega) ho rfl
-    (by show st.s.srv.authenticated = false; exact hb.srvUnauth) (by show st.s.srv.serverGuid = cfg.guid; exact hg)
-  refine ⟨5, by decide, Phase.okSent _ 2 (k1 ▸ hc)
-    ⟨k2, by rw [k3], ?_, ?_, ?_, (expectedMech_2 h0 h1).symm⟩ (by rw [k7, hg]; rfl) k6⟩
-  · exact ⟨lit "ANONYMOUS", .anon, AuthServer.anonymousUser, by rw [k3], by rw [k3]; rfl⟩
-  · rw [k4, accepts_snoc, ha, lit_consts.2.2.2.2.2]; rfl
-  · rw [k5, hg]; simp
 
 end Txdbus.Handshake2
